@@ -6,8 +6,6 @@
           not on the model): reflexivity, symmetry, eq -> same hash,
           eq -> neither less nor greater, asymmetry, numeric order, length order, transitivity
      3  = ill-formed case (harness bug)
-     10 = Integer vs Real comparison differs from the numeric order and an integer operand has
-          magnitude above 2^53 (finding A-30)
    NaN and signed zero are the exceptions listed in the property text itself: the laws are not
    required where they occur (no code). *)
 From Cao Require Export CheckUtil Value.
@@ -91,8 +89,6 @@ Definition as_num (a : tval) : num :=
   | _ => NZ (Z.of_nat (tlen a))
   end.
 Definition is_number (a : tval) : bool := is_int a || is_real a.
-Definition opp_oc (c : option comparison) : option comparison :=
-  match c with Some c => Some (CompOpp c) | None => None end.
 Definition num_cmp (x y : num) : option comparison :=
   match x, y with
   | NZ i, NZ j => Some (Z.compare i j)
@@ -100,17 +96,11 @@ Definition num_cmp (x y : num) : option comparison :=
   | NF f, NZ j => opp_oc (Z_cmp_sf j f)
   | NF f, NF g => SFcompare f g
   end.
-Definition two53 : Z := 9007199254740992%Z.
-Definition big_int (x : num) : bool :=
-  match x with NZ i => (two53 <? Z.abs i)%Z | NF _ => false end.
-Definition mixed (x y : num) : bool :=
-  match x, y with NZ _, NF _ | NF _, NZ _ => true | _, _ => false end.
 
 Definition law_numeric (a b : tval) (cab : option comparison) : list N :=
   if is_number a || is_number b then
     let x := as_num a in let y := as_num b in
-    if ocmp_eqb cab (num_cmp x y) then []
-    else if mixed x y && (big_int x || big_int y) then [10] else [2]
+    if ocmp_eqb cab (num_cmp x y) then [] else [2]
   else [].
 
 Definition same_kind_obj (a b : tval) : bool :=
